@@ -399,6 +399,41 @@ class _SingleView(Unroller):
         self.constraints = []
 
 
+def run_bounded_oneshot(c, prefix, depth, clauses=None, timeout_ms=None, include_ensures=True, kind="bounded"):
+    """like run_bounded, but one query per clause over the whole unrolling (violated at some frame 0..depth)"""
+    out = []
+    cl = collections.OrderedDict()
+    if include_ensures:
+        cl.update(c.ensures_)
+        cl.update(c.invariants)
+    cl.update(c.bounded_)
+    if clauses is not None:
+        cl = collections.OrderedDict((n, cl[n]) for n in clauses)
+    u = Unroller(c, "reset")
+    for _ in range(depth):
+        u.extend()
+    s = mk_solver(timeout_ms)
+    for x in u.constraints:
+        s.add(x)
+    for v in u.views:
+        for a in c.all_assumes(v):
+            s.add(a)
+    for n, fn in cl.items():
+        bad = z3.Or(*[z3.Not(_as_bool(fn(v))) for v in u.views])
+        r, secs = _check(s, bad)
+        oid = "%s/%s/%s@%d" % (prefix, kind, n, depth)
+        if r == z3.unsat:
+            out.append(_res(oid, kind, "bounded-ok", secs, depth=depth))
+        elif r == z3.sat:
+            m = s.model()
+            at = next((t for t, v in enumerate(u.views) if z3.is_false(m.eval(_as_bool(fn(v)), model_completion=True))), None)
+            out.append(_res(oid, kind, "failed", secs, depth=depth, at=at,
+                            trace=u.model_trace(m, upto=at if at is not None else None), from_reset=True))
+        else:
+            out.append(_res(oid, kind, "unknown", secs, depth=depth, reason=s.reason_unknown()))
+    return out
+
+
 def run_bounded(c, prefix, depth, clauses=None, timeout_ms=None, include_ensures=True, kind="bounded"):
     """clauses hold on frames 0..depth from reset under the assumptions (labelled bounded)."""
     out = []
@@ -748,6 +783,15 @@ def difftest(c, ncycles=200, seed=0, bias=None):
     return ncycles, ncmp, mism
 
 
+class _SigVals(dict):
+    """signal values of one simulated cycle; a signal that is not part of the design keeps its reset value"""
+    def __init__(self, sim, sigs):
+        dict.__init__(self, {s: sim.get(s) for s in sigs})
+
+    def __missing__(self, sig):
+        return sig.reset.value & ((1 << sig.nbits) - 1)
+
+
 def replay_native(c, trace, clauses, kinds=None):
     """Drive the real module (Migen simulator) with the inputs of a solver trace; evaluate ghosts, assumptions and the
     named clauses on the simulator's signal values.  Returns dict with per-clause first failing cycle (or None), and
@@ -785,12 +829,12 @@ def replay_native(c, trace, clauses, kinds=None):
     # record signal values per cycle
     vals = []
     sim.set_inputs(inputs_of(frames[0]))
-    allsigs = sorted(c.tr.allsigs, key=lambda s: s.duid)
+    allsigs = sorted(set(c.tr.allsigs) | set(c.free_list), key=lambda s: s.duid)
     for t in range(n):
-        vals.append({s: sim.get(s) for s in allsigs})
+        vals.append(_SigVals(sim, allsigs))
         ticks = frames[t].get("ticks")
         sim.step(ticks, inputs_of(frames[t + 1]) if t + 1 < n else None)
-    vals.append({s: sim.get(s) for s in allsigs})
+    vals.append(_SigVals(sim, allsigs))
     first_fail = {nm: None for nm in clauses}
     assume_fail = None
     ghost_log = []
@@ -831,13 +875,13 @@ def replay_window_native(c, trace, goal, wdepth, start):
         for key, val in fr["inputs"].items():
             d[c.free_list[int(key.split(":")[0])]] = val
         return d
-    allsigs = sorted(c.tr.allsigs, key=lambda s: s.duid)
+    allsigs = sorted(set(c.tr.allsigs) | set(c.free_list), key=lambda s: s.duid)
     vals = []
     sim.set_inputs(inputs_of(frames[0]))
     for t in range(n):
-        vals.append({s: sim.get(s) for s in allsigs})
+        vals.append(_SigVals(sim, allsigs))
         sim.step(frames[t].get("ticks"), inputs_of(frames[t + 1]) if t + 1 < n else None)
-    vals.append({s: sim.get(s) for s in allsigs})
+    vals.append(_SigVals(sim, allsigs))
     # ghosts natively
     nxt_view = FrameView(c, Frame(c.tr, "@n", opaque=True), {}, {})
     gconsts = {nm: c.ghost_sort_const(g, "@c") for nm, g in c.ghosts.items()}
